@@ -44,6 +44,7 @@ package commitments
 //@   ensures [C16.opens-iff-hash-matches] result0 <==> (cmt.C != nil && !isnil(cmt.D) && len(cmt.D) > 0 && val(cmt.C) == hashI(cmt.D))
 //@   ensures [C16.skips-randomness] result0 ==> (len(result1) == len(cmt.D) - 1 && arr(result1) == arr(cmt.D) && off(result1) == off(cmt.D) + 1)
 //@   ensures !result0 ==> isnil(result1)
+//@   ensures [C16.opened-values-are-the-committed-ones] result0 ==> (forall k in 0..len(result1) :: (result1[k] == cmt.D[k+1] && result1[k] != nil))
 
 // ----- commitment_builder.go -----
 
